@@ -173,18 +173,29 @@ def write_replay(prop, f):
     ob = f["new"][0]
     path = os.path.join(d, re.sub(r"[^A-Za-z0-9_.-]", "_", ob) + ".json")
     pb = f.get("playback") or {}
+    src = f.get("pair") or f           # the Kani failure that carries the executable counterexample
+    kgrp = src["group"] if src["group"]["kind"] == "kani" else None
     doc = {
         "property": prop, "obligation": ob, "all_failed_obligations": f["obligations"],
-        "engine": f["group"]["kind"], "crate": f["group"].get("crate"),
-        "units": f["group"].get("units"), "features": registry.UNITS[f["group"]["units"][0]].get("features") if f["group"].get("units") else None,
-        "harness": f["harness"]["name"], "harness_file": f["harness"].get("file"),
-        "replayable_natively": bool(f["harness"].get("replayable", True)),
-        "verifier_output": f.get("kani") or f.get("verus"),
+        "deciding_engine": f["group"]["kind"],
+        "engine": "kani" if kgrp else f["group"]["kind"],
+        "crate": kgrp.get("crate") if kgrp else None,
+        "units": kgrp.get("units") if kgrp else None,
+        "features": (kgrp.get("features") or registry.UNITS[kgrp["units"][0]].get("features")) if kgrp else None,
+        "harness": src["harness"]["name"], "harness_file": src["harness"].get("file"),
+        "replayable_natively": bool(src["harness"].get("replayable", True)) and bool(kgrp),
+        "verifier_output": f.get("kani") or f.get("verus") or f.get("cbmc"),
+        "paired_kani_output": (f.get("pair") or {}).get("kani"),
         "concrete_playback_tests": pb.get("tests", []),
         "native_replay_failed": pb.get("native_failed"),
         "native_replay_output": pb.get("native_output"),
         "how_to_replay": f"./check replay {path}",
     }
+    if f.get("search"):
+        doc["replay_obligation"] = f.get("search_hit")
+        doc["engine"] = "native-search"
+        doc["search"] = {k: f["search"][k] for k in ("pair", "input", "found", "evaluations")}
+        doc["replayable_natively"] = True
     with open(path, "w") as fh:
         json.dump(doc, fh, indent=1)
     return path, doc
@@ -214,7 +225,11 @@ def decide(prop, tier, seed):
     # ---- verdict -----------------------------------------------------------------------------
     violations = 0
     lines = []
+    known_all = vlib.load_known_findings()
     for f in failures:
+        if "known" not in f:  # verus / cbmc groups: known-finding matching happens here
+            f["known"] = [k for k in known_all if k["property"] == prop and k["obligation"] in f["obligations"]]
+            f["new"] = [n for n in f["obligations"] if n not in [k["obligation"] for k in f["known"]]]
         for k in f.get("known", []):
             lines.append(f"KNOWN-FINDING: property={prop} {k['obligation']} {k['what']}")
             for o in obligations:
@@ -222,24 +237,78 @@ def decide(prop, tier, seed):
                     o["result"] = "known-finding"
         if not f.get("new"):
             continue
+        kind = f["group"]["kind"]
         pb = f.get("playback")
-        replayable = f["harness"].get("replayable", True) and f["group"]["kind"] == "kani"
-        if replayable and pb and pb.get("native_failed") is False:
-            # verifier reports a failure that the native run of the same values does not reproduce
-            undecided.append({"obligation": f["new"][0],
-                              "reason": "verifier counterexample did not reproduce natively",
-                              "detail": (pb.get("native_output") or "")[-1500:]})
-            for o in obligations:
-                if o["name"] in f["new"]:
-                    o["result"] = "undecided"
-            continue
+        if kind == "kani":
+            replayable = f["harness"].get("replayable", True)
+            if replayable and pb and pb.get("native_failed") is False:
+                # verifier reports a failure that the native run of the same values does not reproduce
+                undecided.append({"obligation": f["new"][0],
+                                  "reason": "verifier counterexample did not reproduce natively",
+                                  "detail": (pb.get("native_output") or "")[-1500:]})
+                for o in obligations:
+                    if o["name"] in f["new"]:
+                        o["result"] = "undecided"
+                continue
+            found_input = bool(pb and pb.get("tests"))
+        else:
+            # Verus gives no model: obtain a failing input from the paired search on the real code
+            found_input = False
+            pair = f["group"].get("pair")
+            if pair and pair["kind"] == "search":
+                sws = Workspace(prop + "-search")
+                try:
+                    weave_units(sws, pair["units"])
+                    sr = vlib.native_search(sws, pair["crate"], pair["test"], features=pair.get("features"),
+                                            targets=(), seed=seed)
+                    checker_cmds.append(sr["cmd"])
+                    hit = [n for n in f["new"] if n in sr["found"]]
+                    if not hit:
+                        # a failed contract of a callee/constant shows up as a failing clause of the
+                        # function that uses it: accept any clause of this property
+                        hit = [n for n in sr["found"] if n.startswith(prop + ".")]
+                    if hit:
+                        found_input = True
+                        f["search_hit"] = hit[0]
+                        f["search"] = {"pair": pair, "input": sr["found"][hit[0]], "found": sr["found"],
+                                       "evaluations": sr["evaluations"], "output": sr["output"][-1500:]}
+                    ev_extra.setdefault("paired_search", []).append(
+                        {"for": f["new"], "engine": "native search on the real function", "evaluations": sr["evaluations"],
+                         "found_failing_input": found_input, "ran": sr["ran"]})
+                except Undecided:
+                    pass
+                finally:
+                    sws.cleanup()
+            elif pair:
+                pf, po, pu = [], [], []
+                try:
+                    run_kani_group(prop, pair, "thorough", po, pu, pf, checker_cmds, ev_extra)
+                except Undecided:
+                    pass
+                for cand in pf:
+                    cpb = cand.get("playback") or {}
+                    if cpb.get("tests") and cpb.get("native_failed") is not False:
+                        f["pair"] = cand
+                        f["playback"] = cpb
+                        found_input = True
+                        break
+                ev_extra.setdefault("paired_search", []).append(
+                    {"for": f["new"], "harnesses": [h["name"] for h in pair["harnesses"]],
+                     "found_failing_input": found_input})
+            only_float = set(f["new"]) <= set(f.get("float_dependent", []))
+            if only_float and not found_input:
+                # DESIGN 3.5: obligations keyed to the shape of the float expression are a violation
+                # only together with a replayable failing input
+                for o in obligations:
+                    if o["name"] in f["new"]:
+                        o["result"] = "undecided"
+                        o["reason"] = "Verus failure on a float-axiom-dependent obligation without a failing input from the bit-precise search"
+                undecided.append({"obligation": f["new"][0], "reason":
+                                  "float-axiom-dependent obligation failed in Verus but no failing input was found by Kani"})
+                continue
         path, doc = write_replay(prop, f)
         violations += 1
-        suffix = ""
-        if f["group"]["kind"] != "kani" and not f.get("found_input"):
-            suffix = " no-failing-input-found"
-        elif f["group"]["kind"] == "kani" and not (pb and pb.get("tests")):
-            suffix = " no-failing-input-found"
+        suffix = "" if found_input else " no-failing-input-found"
         lines.append(f"VIOLATION property={prop} replay={path}{suffix}")
         lines.append(f"  failed obligations: {', '.join(f['new'])}")
 
@@ -275,6 +344,27 @@ def replay(path):
     doc = json.load(open(path))
     prop = doc["property"]
     tests = doc.get("concrete_playback_tests") or []
+    if doc.get("engine") == "native-search":
+        pair = doc["search"]["pair"]
+        ws = Workspace(prop + "-replay")
+        try:
+            weave_units(ws, pair["units"])
+            sr = vlib.native_search(ws, pair["crate"], pair["test"], features=pair.get("features"),
+                                    replay_input=doc["search"]["input"])
+            log(sr["output"][-2500:])
+            if not sr["ran"]:
+                log("replay could not be executed")
+                return 2
+            if doc["obligation"] in sr["found"] or sr["found"]:
+                log(f"VIOLATION property={prop} replay={path}")
+                return 1
+            log(f"replay of {doc['obligation']} passes on the current tree")
+            return 0
+        except Undecided as u:
+            log(f"UNDECIDED property={prop} obligation={u.obligation} reason={u.reason}")
+            return 2
+        finally:
+            ws.cleanup()
     if doc.get("engine") != "kani" or not tests:
         log(f"replay file {path}: no concrete input recorded for obligation {doc['obligation']}; "
             f"verifier output follows")
